@@ -205,7 +205,6 @@ func Harness_C11_shape() {
 	verifDecryptTotal(verifProfile{algs: []int{0, 5}, oddAlgs: true, small: true, depth: verifParam("depth", 1)})
 }
 
-
 // Harness_C11_padding: a cipher value that decrypts (under the right key) to arbitrary blocks - so the
 // padding byte the decrypter sees is arbitrary - yields plaintext or an error, never a panic, and when it
 // yields plaintext the plaintext is the decrypted text minus a padding of 1..block-size bytes.
